@@ -5,3 +5,15 @@ B=/repo/_build
 [ -f $B/build.ninja ] || cmake -S /repo -B $B -G Ninja -DCMAKE_BUILD_TYPE=RelWithDebInfo -DBUILD_TESTING=ON -DCMAKE_POLICY_VERSION_MINIMUM=3.5 -DCMAKE_CXX_FLAGS=-Wno-error -DCMAKE_C_FLAGS=-Wno-error > /tmp/baseline_conf.log 2>&1
 cmake --build $B -j"$(nproc)" -- -k0 > /tmp/baseline_build.log 2>&1 || { echo "baseline build failed"; tail -30 /tmp/baseline_build.log; exit 1; }
 ctest --test-dir $B -j8 --timeout 900 --output-junit /tmp/baseline_junit.xml 2>&1 | tail -40
+python3 - <<'PY'
+import json, sys, xml.etree.ElementTree as ET
+b = json.load(open('/root/.vp/BASELINE.json')) if __import__('os').path.exists('/root/.vp/BASELINE.json') else None
+t = ET.parse('/tmp/baseline_junit.xml').getroot()
+res = {tc.get('name'): (tc.find('failure') is None and tc.get('status', 'run') != 'fail') for tc in t.iter('testcase')}
+if b is None:
+    bad = [k for k, v in res.items() if not v]
+else:
+    bad = [s for s in b['stable_pass'] if not res.get(s.split('::')[0], False)]
+print('baseline: %d tests run, %d passed; stable tests failing: %s' % (len(res), sum(res.values()), bad))
+sys.exit(1 if bad and b is not None else 0)
+PY
